@@ -1,5 +1,6 @@
 import BbRe.Model.Quota
 import BbRe.Lemmas.Quota
+import BbRe.Lemmas.BitmapSpec
 /-!
 # C15 (allocator and quota half) — storage sectors and quota are conserved
 
@@ -9,9 +10,10 @@ Property theorems about `Model/Quota.lean` (transcription of
 Helper lemmas: `BbRe/Lemmas/Quota.lean`, `BbRe/Lemmas/Bitmap*.lean`.
 -/
 namespace BbRe.Properties.C15Alloc
-open BbRe.Quota BbRe.Lemmas.Quota
 
 /-! ## Quota -/
+section Quota
+open BbRe.Quota BbRe.Lemmas.Quota
 
 /-- **Conservation, inductive step**: one call of `NewFile`/`Truncate`/`WriteAt`/`Close`
 with *any* answer of the base pool (success, failure, short write with or without
@@ -77,5 +79,131 @@ example :
       .writeAt 0 50 20 5 true, .truncate 0 10 false]
     st.filesRemaining = 1 ∧ st.bytesRemaining = 40 ∧ st.files = [(0, 60)] ∧
     (closeAll st (fun _ => true)).bytesRemaining = 100 := by decide
+
+end Quota
+
+/-! ## Bitmap sector allocator -/
+section Bitmap
+open BbRe.Bitmap BbRe.Lemmas.Bitmap BbRe
+
+/-- **`bitmap_meets_spec`**: the word-level bitmap allocator (`Model/Bitmap.lean`: `uint64`
+words, trailing zeros, rotating `nextSector`) refines `AllocSpec` for *every* device size `n`,
+through the abstraction `Bitmap.abs` (sector `s` is allocated iff `1 ≤ s ≤ n` and bit `s-1` is
+zero) and the representation invariant `Bitmap.Inv`:
+* a fresh allocator has nothing allocated;
+* `AllocateContiguous(max)`, `max ≥ 1`, that succeeds returns `1 ≤ count ≤ max` contiguous
+  sectors within `1 … n` that were all free, and marks exactly these;
+* it fails only when no sector is free, and then changes nothing;
+* `FreeContiguous` / `FreeList` on allocated sectors do not panic and free exactly these.
+This is a theorem about the full bit-level model (no intermediate `List Bool` layer). -/
+theorem bitmap_meets_spec : AllocSpec.Meets impl Inv abs where
+  new_inv := new_inv
+  new_abs := abs_new
+  abs_wf := fun n st _ => abs_wf n st
+  alloc_inv := fun n st max h hm => alloc_inv n st max h hm
+  alloc_ok := fun n st max first count hinv hmax h => alloc_ok_spec n st max first count hinv hmax h
+  alloc_fail := fun n st max _ h => alloc_fail_spec n st max h
+  freeContiguous_ok := fun n st first count hinv hc hpre => freeContiguous_ok_spec n st first count hinv hc hpre
+  freeList_ok := fun n st sectors hinv hpre => freeList_ok_spec n st sectors hinv hpre
+
+/-- The representation invariant (slice length, permanently used tail, cursor within the
+device) holds in every state reachable by contract-respecting calls; hence all the
+per-operation statements of `bitmap_meets_spec` apply along every history. -/
+theorem bitmap_inv_reachable {n : Nat} {st : State} (h : Reach n st) : Inv n st := by
+  induction h with
+  | new => exact new_inv n
+  | alloc max _ hm ih => exact alloc_inv n _ max ih hm
+  | freeContiguous first count _ hc hpre he ih =>
+    obtain ⟨st'', e, hinv, _⟩ := freeContiguous_ok_spec n _ first count ih hc hpre
+    rw [he] at e; cases e; exact hinv
+  | freeList sectors _ hpre he ih =>
+    obtain ⟨st'', e, hinv, _⟩ := freeList_ok_spec n _ sectors ih hpre
+    rw [he] at e; cases e; exact hinv
+
+/-- **After freeing everything the abstract state is initial**: from any state satisfying
+the invariant, `FreeList` of all allocated sectors succeeds and leaves nothing allocated. -/
+theorem bitmap_free_all_initial {n : Nat} {st : State} (hinv : Inv n st) :
+    ∃ st', freeList st (allocatedList n st) = some st' ∧ Inv n st' ∧ ∀ s, abs n st' s = AllocSpec.init s := by
+  have hmem : ∀ s, s ∈ allocatedList n st ↔ abs n st s = true := by
+    intro s
+    rw [abs_eq_true]
+    simp only [allocatedList, List.mem_map, List.mem_filter, List.mem_range]
+    constructor
+    · rintro ⟨i, ⟨hi, hb⟩, rfl⟩
+      simp at hb
+      exact ⟨by omega, by omega, by simpa using hb⟩
+    · rintro ⟨h1, h2, h3⟩
+      exact ⟨s - 1, ⟨by omega, by simp [h3]⟩, by omega⟩
+  have hpre : AllocSpec.FreeListPre (abs n st) (allocatedList n st) := by
+    refine ⟨fun s hs _ => (hmem s).1 hs, ?_⟩
+    apply List.Nodup.sublist (List.filter_sublist)
+    unfold allocatedList
+    rw [List.nodup_iff_pairwise_ne, List.pairwise_map]
+    have := (List.nodup_range (n := n)).sublist (List.filter_sublist (p := fun i => !bit st.bm i))
+    exact this.imp (by intro a b h; omega)
+  obtain ⟨st', e, hinv', hpost⟩ := freeList_ok_spec n st _ hinv hpre
+  refine ⟨st', e, hinv', ?_⟩
+  intro s
+  rw [hpost s]
+  simp only [AllocSpec.init]
+  cases ha : abs n st s
+  · simp
+  · have hm := (hmem s).2 ha
+    have h0 : s ≠ 0 := by have := (abs_eq_true.1 ha).1; omega
+    simp [h0, hm]
+
+
+/-- **Progress**: whenever some sector is free, `AllocateContiguous` returns sectors (it only
+reports `ResourceExhausted` when the device is full). -/
+theorem bitmap_progress {n : Nat} {st : State} (_hinv : Inv n st) {s : Nat}
+    (hfree : AllocSpec.IsFree n (abs n st) s) (max : Nat) :
+    ∃ first count, (alloc st max).2 = some (first, count) := by
+  cases h : (alloc st max).2 with
+  | none => exact absurd (alloc_fail_spec n st max h) (AllocSpec.not_full_of_free hfree)
+  | some r => exact ⟨r.1, r.2, rfl⟩
+
+/-- **`FreeContiguous` / `FreeList` invert allocation**: giving back exactly the run that
+`AllocateContiguous` returned (either way) restores the previous set of allocated sectors. -/
+theorem bitmap_free_inverts_alloc {n : Nat} {st : State} (hinv : Inv n st) {max first count : Nat}
+    (hmax : 1 ≤ max) (h : (alloc st max).2 = some (first, count)) :
+    (∃ st', freeContiguous (alloc st max).1 first count = some st' ∧ Inv n st' ∧
+      ∀ s, abs n st' s = abs n st s) ∧
+    (∃ st', freeList (alloc st max).1 (List.range' first count) = some st' ∧ Inv n st' ∧
+      ∀ s, abs n st' s = abs n st s) := by
+  have hok := alloc_ok_spec n st max first count hinv hmax h
+  have hinv' := alloc_inv n st max hinv hmax
+  have hrun : ∀ s, first ≤ s → s < first + count → abs n (alloc st max).1 s = true := by
+    intro s s1 s2
+    rw [hok.post s]; simp [AllocSpec.inRun, s1, s2]
+  have hback : ∀ s, (abs n (alloc st max).1 s && !AllocSpec.inRun first count s) = abs n st s := by
+    intro s
+    rw [hok.post s]
+    by_cases hr : AllocSpec.inRun first count s = true
+    · have : first ≤ s ∧ s < first + count := by simpa [AllocSpec.inRun] using hr
+      rw [hok.were_free s this.1 this.2, hr]; rfl
+    · simp at hr; rw [hr]; simp
+  constructor
+  · obtain ⟨st', e, hi, hp⟩ := freeContiguous_ok_spec n _ first count hinv' hok.count_pos ⟨hok.first_pos, hrun⟩
+    exact ⟨st', e, hi, fun s => by rw [hp s, hback s]⟩
+  · obtain ⟨st', e, hi, hp⟩ := freeList_ok_spec n _ (List.range' first count) hinv' (by
+      refine ⟨?_, ?_⟩
+      · intro s hs _
+        rw [List.mem_range'_1] at hs
+        exact hrun s hs.1 hs.2
+      · exact List.Nodup.sublist List.filter_sublist (List.nodup_range' (step := 1)))
+    refine ⟨st', e, hi, fun s => ?_⟩
+    rw [hp s, ← hback s]
+    congr 2
+    have hfp := hok.first_pos
+    rw [Bool.eq_iff_iff]
+    simp [AllocSpec.inRun, List.mem_range'_1]
+    omega
+
+example : Inv 130 (new 130) := new_inv 130
+example : ∃ first count, (alloc (new 130) 200).2 = some (first, count) :=
+  bitmap_progress (new_inv 130) (s := 1) ⟨by omega, by omega, abs_new 130 1⟩ 200
+example : (alloc (new 0) 5).2 = none := by decide
+
+end Bitmap
 
 end BbRe.Properties.C15Alloc
